@@ -78,7 +78,9 @@ namespace T
       G_ATOM3 = 4096,  // ascii convenience atoms (keyword identifier shebang two three forty_two ranges rep_string rep_one_min_max)
       G_CONTRIB = 8192, // contrib: integer rules, raw_string, predicates, separated_seq, if_then
       G_REMATCH = 16384, // rematch / minus construct a plain memory_input for the second phase
-      G_MUST = 32768    // must<> alone (also part of G_CONV)
+      G_MUST = 32768,   // must<> alone (also part of G_CONV)
+      G_FILL = 65536,   // filler leaves for ill-formed grammar families (C11)
+      G_META = 131072   // action<> / control<> wrappers, raw_string with content rule
    };
 #ifndef VERIF_GROUPS
 #define VERIF_GROUPS ( T::G_CORE | T::G_HOLE )
@@ -373,6 +375,9 @@ namespace T
    template< typename A > using w_disable = p::disable< A >;
    struct LogState;
    template< typename A > using w_state = p::state< LogState, A >;
+   template< typename A > using w_action_alt = p::action< p::nothing, A >;
+   template< typename A > using w_control_alt = p::control< p::normal, A >;
+   template< typename A > using w_raw1 = p::raw_string< '[', '=', ']', A >;
    // clang-format on
 
    struct raise_msg : p::raise_message< 'r', 'm', 's', 'g' >
@@ -432,6 +437,12 @@ namespace T
    T3( SEPARATED_SEQ, G_CONTRIB, w_separated_seq ) \
    T3( IF_THEN_ELSE_THEN, G_CONTRIB, w_if_then_else_then ) \
    B2( IF_THEN, G_CONTRIB, w_if_then ) \
+   A0( OPT_ONE_A, G_FILL, ( p::opt< p::one< 'a' > > ) ) \
+   A0( AT_ONE_A, G_FILL, ( p::at< p::one< 'a' > > ) ) \
+   A0( NOT_AT_ONE_A, G_FILL, ( p::not_at< p::one< 'a' > > ) ) \
+   U1( ACTION_ALT, G_META, w_action_alt ) \
+   U1( CONTROL_ALT, G_META, w_control_alt ) \
+   U1( RAW1, G_META, w_raw1 ) \
    U1( STAR, G_CORE, w_star ) \
    U1( PLUS, G_CORE, w_plus ) \
    U1( OPT, G_CORE, w_opt ) \
